@@ -152,6 +152,7 @@ func runC07(c *core.Ctx) error {
 			spec = core.SelAll()
 		} else {
 			spec = core.GenSelector(c.Rand, g, 0, false, i%7 == 0)
+			distSelector(c, spec)
 		}
 		cases = append(cases, walkCase{g: g, spec: spec})
 		if i%5 == 0 {
